@@ -449,6 +449,13 @@ class Interp:
             await self._block(name, idx, st, until(self.cond(st['notif'])))
         elif op == 'raise':
             raise self.new_exc(st['eid'], st.get('cls', 'E'))
+        elif op == 'raise_saved':
+            # somebody re-raises an exception object that another activity has handled and handed on
+            saved = self.__dict__.get('saved_excs')
+            if saved:
+                ev(name, idx, 'raise_saved')
+                raise saved[-1]
+            ev(name, idx, 'nothing_saved')
         elif op == 'cancel':
             t = self._task(st['ref'])
             before = t.status.name
@@ -464,6 +471,9 @@ class Interp:
                 ev(name, idx, 'got_exc', self.describe(e))
                 if st.get('nocatch'):
                     raise
+                if st.get('store'):
+                    # the handler hands the exception object on (an error list, a report queue)
+                    self.__dict__.setdefault('saved_excs', []).append(e)
                 if st.get('hold') is not None:
                     # the handler goes on working: the frame that caught the exception stays alive and suspended
                     await (time + num(st['hold']))
